@@ -3,6 +3,7 @@ package main
 import (
 	"fmt"
 	"go/ast"
+	"go/token"
 	"golang.org/x/tools/go/ssa"
 	"strings"
 )
@@ -115,4 +116,85 @@ func (r *Report) NoTimerInLoop(key string, prefixes []string, minFuncs int) {
 		return
 	}
 	r.OK(key, d, "-", fmt.Sprintf("%d functions examined", n))
+}
+
+// ReceiveAlwaysHandled: in fn every value received from the channel (atoms) reaches `go <closure calling callee>` (or a
+// direct call of callee) before the next receive or a return: nothing that was received is dropped on the floor.
+// Seed C20-11: the grogu submitter skipped submissions that had waited too long, before the goroutine whose deferred
+// release un-marks the signals - they stayed pending forever.
+func (r *Report) ReceiveAlwaysHandled(key, fnKey string, chanAtoms []string, callee string) {
+	w := r.W
+	fn := w.Fn(fnKey)
+	d := fmt.Sprintf("in %s every value received from %v is handed to %s before the next receive or a return", fnKey, chanAtoms, callee)
+	k := key + "|" + fnKey
+	if fn == nil {
+		r.Unres(k, d, "function not found")
+		return
+	}
+	w.FuncsAnalysed[fn] = true
+	var recvBlocks []*ssa.BasicBlock
+	handled := map[*ssa.BasicBlock]bool{}
+	callsCallee := func(f *ssa.Function) bool {
+		return f != nil && len(Calls(f, callee)) > 0
+	}
+	for _, b := range fn.Blocks {
+		for _, in := range b.Instrs {
+			switch x := in.(type) {
+			case *ssa.UnOp:
+				if x.Op == token.ARROW && Render(x.X).Has(chanAtoms...) {
+					recvBlocks = append(recvBlocks, b)
+				}
+			case *ssa.Go:
+				if mc, ok := x.Call.Value.(*ssa.MakeClosure); ok {
+					if cf, _ := mc.Fn.(*ssa.Function); callsCallee(cf) {
+						handled[b] = true
+					}
+				} else if nameMatch(CalleeName(&x.Call), callee) {
+					handled[b] = true
+				}
+			case *ssa.Call:
+				if nameMatch(CalleeName(&x.Call), callee) {
+					handled[b] = true
+				}
+			}
+		}
+	}
+	if len(recvBlocks) == 0 {
+		r.Unres(k, d, "no receive from that channel found")
+		return
+	}
+	if len(handled) == 0 {
+		r.Unres(k, d, "no hand-over to "+callee+" found")
+		return
+	}
+	for _, rb := range recvBlocks {
+		w.SitesExamined++
+		if handled[rb] {
+			continue
+		}
+		seen := map[*ssa.BasicBlock]bool{}
+		dropped := false
+		var walk func(b *ssa.BasicBlock)
+		walk = func(b *ssa.BasicBlock) {
+			if seen[b] || handled[b] || dropped {
+				return
+			}
+			seen[b] = true
+			if b == rb || len(b.Succs) == 0 {
+				dropped = true
+				return
+			}
+			for _, s := range b.Succs {
+				walk(s)
+			}
+		}
+		for _, s := range rb.Succs {
+			walk(s)
+		}
+		if dropped {
+			r.Bad(k, d, w.FnPos(fn), "a received value can be dropped: some path from the receive to the next receive (or to a return) does not hand it to "+callee)
+			return
+		}
+	}
+	r.OK(k, d, w.FnPos(fn), fmt.Sprintf("%d receive site(s)", len(recvBlocks)))
 }
